@@ -62,6 +62,18 @@ func checkC10cold(ctx *core.Ctx, rep *core.Report) {
 		return
 	}
 	ops := []c10Op{opLint("x", objs[0], g), opLint("y", objs[1], g)}
+	names := g.Names()
+	fopt := lint.FilterOptions{IncludeSources: lint.SourceList{lint.CABFBaselineRequirements, lint.RFC5280}}
+	switch ctx.Args["kind"] {
+	case "lj": // a lint run against the very first listing (Names, Sources, lookups, WriteJSON, DefaultConfiguration) of the process
+		ops = []c10Op{opLint("x", objs[0], g), opListing(g, names[len(names)/2])}
+	case "lf": // … against the very first Filter
+		ops = []c10Op{opLint("x", objs[0], g), opFilter("sources", g, fopt)}
+	case "jj":
+		ops = []c10Op{opListing(g, names[len(names)/2]), opListing(g, names[0])}
+	case "fj":
+		ops = []c10Op{opFilter("sources", g, fopt), opListing(g, names[len(names)/2])}
+	}
 	got := make([]string, len(ops))
 	bodies := make([]func(), len(ops))
 	for i := range ops {
@@ -80,8 +92,8 @@ func checkC10cold(ctx *core.Ctx, rep *core.Report) {
 	rep.Inc("states")
 	rep.Inc("validated")
 	rep.Add("transitions", int64(len(x.Points)))
-	name := fmt.Sprintf("cold start: lint %s ∥ lint %s", objs[0].Name, objs[1].Name)
-	art := map[string]interface{}{"op": "cold_schedule", "objects": want, "preemption": ctx.Args["pre"]}
+	name := fmt.Sprintf("cold start: %s ∥ %s (x = %s, y = %s)", ops[0].desc, ops[1].desc, objs[0].Name, objs[1].Name)
+	art := map[string]interface{}{"op": "cold_schedule", "objects": want, "preemption": ctx.Args["pre"], "kind": ctx.Args["kind"]}
 	if x.Diverged != "" {
 		// a one-preemption prefix derived from the base run of ANOTHER process must replay: same binary, same input
 		rep.InternalError("%s: %s", name, x.Diverged)
